@@ -43,19 +43,19 @@ func lIdx(p opencdc.Position) int {
 }
 
 type lWorld struct {
-	mu        sync.Mutex
-	K         int
-	src       *lSrcPlugin
-	dests     map[string]*lDestPlugin
-	destOrder []string
-	statuses  []pipeline.Status
-	statusMsg []string
-	stored    map[string][]byte
-	pl        *pipeline.Instance
-	conns     map[string]*connector.Instance
-	persister *connector.Persister
-	failures  []FailureEvent
-	starts    int
+	mu         sync.Mutex
+	K          int
+	src        *lSrcPlugin
+	dests      map[string]*lDestPlugin
+	destOrder  []string
+	statuses   []pipeline.Status
+	statusMsg  []string
+	stored     map[string][]byte
+	pl         *pipeline.Instance
+	conns      map[string]*connector.Instance
+	persister  *connector.Persister
+	failures   []FailureEvent
+	starts     int
 	dlqNackAll bool // every DLQ plugin rejects what it is given (DLQ write failure)
 }
 
@@ -457,7 +457,9 @@ func (lProcessorService) MakeRunnableProcessorForReconfigure(context.Context, *p
 
 type lPipelineService struct{ w *lWorld }
 
-func (s lPipelineService) Get(context.Context, string) (*pipeline.Instance, error) { return s.w.pl, nil }
+func (s lPipelineService) Get(context.Context, string) (*pipeline.Instance, error) {
+	return s.w.pl, nil
+}
 func (s lPipelineService) List(context.Context) map[string]*pipeline.Instance {
 	return map[string]*pipeline.Instance{s.w.pl.ID: s.w.pl}
 }
